@@ -137,8 +137,51 @@ def noconns_of(ops, mid):
 RESERVED = {"name", "of", "conns", "connect", "disconnect", "replace", "portref", "portrefs", "ports", "signals", "instances", "instarrays", "instbundles", "bundles", "literals", "props", "namespace", "add", "get"}
 
 
+MAXLEN = 511  # the elaborator's limit for invented names (ElabPass.flatname)
+
+
+def boundary(ch, ops):
+    """Names at the length limit: an instance is renamed so that the name the elaborator wants to
+    invent for one of its implicit / no-connected ports is 511 (or 510) characters long, and
+    designer signals take that name (and its padded variants up to the limit).  The only correct
+    outcomes are a fresh name (impossible here) or an error."""
+    d = refmodel.load(ops)
+    cands = []
+    for mid, m in d.mods.items():
+        sigs = [n for n, (w, vis, _d) in m.sigs.items() if vis == "i"]
+        for iname, info in m.insts.items():
+            if info["kind"] != "inst":
+                continue
+            try:
+                ports = d.target_ports(info["target"])
+            except Exception:  # noqa
+                continue
+            for port in ports:
+                x = m.conns[iname].get(port)
+                if x is None or (x[0] == "nc" and x[2] is None):
+                    cands.append((mid, iname, port, sigs))
+    cands = [c for c in cands if len(c[3]) >= 2]
+    if not cands:
+        return ops, 0
+    mid, iname, port, sigs = ch.pick(cands, "bnd")
+    t = ch.pick([0, 1], "bndt")
+    newi = "L" + "x" * (MAXLEN - t - len(port) - 2)
+    target = f"{newi}_{port}"
+    assert len(target) == MAXLEN - t
+    ops = rename(ops, d, mid, "inst", iname, newi)
+    victims = ch.shuffle(sigs, "bndv")[: t + 1]
+    for k, v in enumerate(victims):
+        d = refmodel.load(ops)
+        ops = rename(ops, d, mid, "sig", v, target + "_" * k)
+    return ops, 1 + len(victims)
+
+
 def adversarial(ch, ops):
     """Apply 1-4 adversarial renamings. Returns (ops, number applied)."""
+    if ch.chance(1, 10):
+        ops2, n = boundary(ch, ops)
+        if n:
+            return ops2, n
     applied = 0
     for _ in range(ch.rint(1, 4, "nadv")):
         d = refmodel.load(ops)
